@@ -57,7 +57,7 @@ func main() {
 			add(3 << uint(k-2))
 		}
 		add(maxTotal)
-		add(math.MaxUint32 / 3)      // where total*2 would wrap if done in a narrower way
+		add(math.MaxUint32 / 3) // where total*2 would wrap if done in a narrower way
 		add(math.MaxUint32/3*2 + 100)
 		add(math.MaxUint32 / 4)
 	} else {
